@@ -12,9 +12,9 @@ import (
 	"net/url"
 	"os"
 	"path/filepath"
-	"regexp"
 	"strconv"
 	"strings"
+	"unicode"
 
 	"github.com/mattn/go-sqlite3"
 	command "github.com/rqlite/rqlite/v10/command/proto"
@@ -127,23 +127,194 @@ func SynchronousModeFromInt(i int) (SynchronousMode, error) {
 	}
 }
 
-// BreakingPragmas are PRAGMAs that, if executed, would break the database layer.
-var BreakingPragmas = map[string]*regexp.Regexp{
-	"PRAGMA journal_mode":       regexp.MustCompile(`(?i)^\s*PRAGMA\s+(\w+\.)?journal_mode\s*=\s*`),
-	"PRAGMA wal_autocheckpoint": regexp.MustCompile(`(?i)^\s*PRAGMA\s+wal_autocheckpoint\s*=\s*`),
-	"PRAGMA wal_checkpoint":     regexp.MustCompile(`(?i)^\s*PRAGMA\s+(\w+\.)?wal_checkpoint`),
-	"PRAGMA synchronous":        regexp.MustCompile(`(?i)^\s*PRAGMA\s+(\w+\.)?synchronous\s*=\s*`),
-	"PRAGMA query_only":         regexp.MustCompile(`(?i)^\s*PRAGMA\s+(\w+\.)?query_only\s*=\s*`),
+// BreakingPragmas are the PRAGMAs that, if set by a client, would break the database
+// layer. The value is true if the bare form (no value) must be rejected as well.
+var BreakingPragmas = map[string]bool{
+	"journal_mode":       false,
+	"wal_autocheckpoint": false,
+	"wal_checkpoint":     true, // runs a checkpoint even without an argument
+	"synchronous":        false,
+	"query_only":         false,
 }
 
-// IsBreakingPragma returns true if the given statement is a breaking PRAGMA.
-func IsBreakingPragma(stmt string) bool {
-	for _, re := range BreakingPragmas {
-		if re.MatchString(stmt) {
-			return true
+// Token kinds returned by sqlToken.
+const (
+	tkSpace  = iota // white space, byte order mark or comment
+	tkWord          // unquoted identifier or keyword
+	tkQuoted        // 'x', "x", `x` or [x]
+	tkSemi
+	tkDot
+	tkEq
+	tkLP
+	tkOther
+)
+
+func isSQLSpace(c byte) bool { return c == ' ' || (c >= '\t' && c <= '\r') }
+
+func isSQLIDChar(c byte) bool {
+	return c >= 0x80 || c == '_' || c == '$' || (c >= '0' && c <= '9') ||
+		(c >= 'a' && c <= 'z') || (c >= 'A' && c <= 'Z')
+}
+
+func asciiLower(s string) string {
+	b := []byte(s)
+	for i, c := range b {
+		if c >= 'A' && c <= 'Z' {
+			b[i] = c + 'a' - 'A'
 		}
 	}
-	return false
+	return string(b)
+}
+
+// sqlToken returns the kind and the length of the token at the start of s, which must
+// not be empty. Token boundaries are those of SQLite's own tokenizer for every token
+// that can contain a quote, a semicolon or a comment marker.
+func sqlToken(s string) (kind, n int) {
+	c := s[0]
+	switch {
+	case c != '\v' && isSQLSpace(c):
+		for n = 1; n < len(s) && isSQLSpace(s[n]); n++ {
+		}
+		return tkSpace, n
+	case strings.HasPrefix(s, "\xef\xbb\xbf"): // byte order mark
+		return tkSpace, 3
+	case strings.HasPrefix(s, "--"):
+		if n = strings.IndexByte(s, '\n'); n < 0 {
+			n = len(s)
+		}
+		return tkSpace, n
+	case strings.HasPrefix(s, "/*") && len(s) > 2:
+		if n = strings.Index(s[2:], "*/"); n < 0 {
+			return tkSpace, len(s)
+		}
+		return tkSpace, n + 4
+	case c == '\'' || c == '"' || c == '`':
+		for n = 1; n < len(s); n++ {
+			if s[n] == c {
+				if n+1 < len(s) && s[n+1] == c {
+					n++
+				} else {
+					return tkQuoted, n + 1
+				}
+			}
+		}
+		return tkOther, n // unterminated
+	case c == '[':
+		if n = strings.IndexByte(s, ']'); n < 0 {
+			return tkOther, len(s)
+		}
+		return tkQuoted, n + 1
+	case c == ';':
+		return tkSemi, 1
+	case c == '.':
+		return tkDot, 1
+	case c == '(':
+		return tkLP, 1
+	case c == '=':
+		if strings.HasPrefix(s, "==") {
+			return tkEq, 2
+		}
+		return tkEq, 1
+	case c == '$' || c == '@' || c == ':' || c == '#': // parameter, possibly $name(...)
+		ids := 0
+		for n = 1; n < len(s); n++ {
+			if isSQLIDChar(s[n]) {
+				ids++
+			} else if s[n] == '(' && ids > 0 {
+				for n++; n < len(s) && !isSQLSpace(s[n]) && s[n] != ')'; n++ {
+				}
+				if n < len(s) && s[n] == ')' {
+					n++
+				}
+				break
+			} else if strings.HasPrefix(s[n:], "::") {
+				n++
+			} else {
+				break
+			}
+		}
+		return tkOther, n
+	case isSQLIDChar(c): // identifier, keyword, number or blob literal
+		if (c == 'x' || c == 'X') && len(s) > 1 && s[1] == '\'' {
+			if n = strings.IndexByte(s[2:], '\''); n < 0 {
+				return tkOther, len(s)
+			}
+			return tkOther, n + 3
+		}
+		for n = 1; n < len(s) && isSQLIDChar(s[n]); n++ {
+		}
+		if c >= '0' && c <= '9' {
+			return tkOther, n
+		}
+		return tkWord, n
+	}
+	return tkOther, 1
+}
+
+// IsBreakingPragma returns true if the given SQL text contains a breaking PRAGMA. The
+// text is read the way SQLite reads it: comments and white space are skipped, every
+// statement of a multi-statement text is examined, the PRAGMA name may be quoted and
+// prefixed by a schema, and both "= value" and "(value)" count as setting it.
+func IsBreakingPragma(stmt string) bool {
+	s := stmt
+	if i := strings.IndexByte(s, 0); i >= 0 {
+		s = s[:i] // SQLite is handed a C string.
+	}
+	const (
+		atStart   = iota // no token of the statement seen yet
+		atExplain        // after EXPLAIN [QUERY PLAN]
+		atPragma         // after PRAGMA
+		atName           // after the first name
+		atDot            // after "schema."
+		atName2          // after "schema.name"
+		atRest           // anything else, skip to the next ';'
+	)
+	state, breaking := atStart, false
+	for {
+		if state == atStart {
+			// The SQLite driver trims Unicode white space off the text that
+			// follows a statement, so it does not protect a PRAGMA there.
+			s = strings.TrimLeftFunc(s, unicode.IsSpace)
+		}
+		if s == "" {
+			return false
+		}
+		kind, n := sqlToken(s)
+		tok := s[:n]
+		s = s[n:]
+		isKeyword := func(kw string) bool { return kind == tkWord && asciiLower(tok) == kw }
+		switch {
+		case kind == tkSpace:
+		case kind == tkSemi:
+			state = atStart
+		case state == atStart && isKeyword("explain"):
+			state = atExplain
+		case state == atExplain && (isKeyword("query") || isKeyword("plan")):
+		case (state == atStart || state == atExplain) && isKeyword("pragma"):
+			state = atPragma
+		case (state == atPragma || state == atDot) && (kind == tkWord || kind == tkQuoted):
+			name := tok
+			if kind == tkQuoted {
+				name = tok[1 : len(tok)-1]
+			}
+			bare, ok := BreakingPragmas[asciiLower(name)]
+			if ok && bare {
+				return true
+			}
+			breaking = ok
+			if state == atPragma {
+				state = atName
+			} else {
+				state = atName2
+			}
+		case state == atName && kind == tkDot:
+			state = atDot
+		case (state == atName || state == atName2) && breaking && (kind == tkEq || kind == tkLP):
+			return true
+		default:
+			state = atRest
+		}
+	}
 }
 
 // ParseHex parses the given string into a byte slice as per the SQLite specification:
